@@ -139,6 +139,16 @@ func (c *ColNullable[T]) Reset() {
 	c.Values.Reset()
 }
 
+// Prepare ensures Preparable column propagation.
+func (c *ColNullable[T]) Prepare() error {
+	if v, ok := c.Values.(Preparable); ok {
+		if err := v.Prepare(); err != nil {
+			return errors.Wrap(err, "prepare values")
+		}
+	}
+	return nil
+}
+
 func (c ColNullable[T]) EncodeColumn(b *Buffer) {
 	c.Nulls.EncodeColumn(b)
 	c.Values.EncodeColumn(b)
